@@ -23,6 +23,9 @@ def main():
         sk = CMS.CountMinSketch(depth, width)
         use_str = sidx % 3 == 0
         universe = [f's{u}' for u in range(12)] if use_str else [int(u) for u in rng.integers(-50, 10 ** 6, 12)]
+        if sidx % 3 == 1 and sidx % 2 == 0:
+            # integers whose hash is not the integer itself (-1), or wraps (2^61 - 1 and beyond), or exceeds 32 bits
+            universe[:9] = [-1, -2, 0, 2 ** 61 - 1, 2 ** 61, -(2 ** 61 - 1), 2 ** 32 + 3, 2 ** 31, 2 ** 32 - 1]
         if sidx % 3 == 2:
             # mixed stream: ints and strings, including an int and its own decimal rendering
             universe = [int(u) for u in rng.integers(0, 200, 6)] + [f's{u}' for u in range(4)]
